@@ -1,5 +1,7 @@
 package main
 
+import "strconv"
+
 func init() {
 	props["C09"] = &prop{gen: genC09}
 	props["C10"] = &prop{gen: genC10}
@@ -50,8 +52,31 @@ func genReenc(r *rng, n int, emit func(string)) {
 	}
 }
 
+// an Evidence that decoded a token in a format the library accepts but never emits (one-element nonce array,
+// unknown keys, permuted order), or whose claims were replaced, signs again: the new payload is the profile's format
+func genResign(r *rng, n int, emit func(string)) {
+	for i := 0; i < n; i++ {
+		c := validClaims(2, r)
+		t := validToken(2, r)
+		if r.intn(2) == 0 {
+			t["nonce"] = cArray(cBytes(rb(32, byte(r.intn(256)))))
+		}
+		order := append([]string{}, claimOrder...)
+		for j := len(order) - 1; j > 0; j-- {
+			k := r.intn(j + 1)
+			order[j], order[k] = order[k], order[j]
+		}
+		foreign := assemble(2, t, order, []kvp{{cUint(99), cText("x")}}, false)
+		k := strconv.Itoa(1 + r.intn(5))
+		c2 := validClaims(1+r.intn(2), r)
+		emit("EV 2 " + c.String() + " " + c2.String() + " set:0 vsign:g" + k + " dec:f0:" + hexTok(foreign) + " vsign:g" + k + " dec:t1 ver:" + k +
+			" set:1 vsign:g" + k + " dec:t2 ver:" + k + " sign:g" + k)
+	}
+}
+
 func genC10(tier string, seed uint64, emit func(string)) {
 	r := &rng{s: seed}
+	genResign(r, map[bool]int{false: 120, true: 3000}[tier == "thorough"], emit)
 	genReenc(r, map[bool]int{false: 400, true: 8000}[tier == "thorough"], emit)
 	n := 3000
 	if tier == "thorough" {
